@@ -3,6 +3,7 @@ package main
 import (
 	"flag"
 	"fmt"
+	"golang.org/x/tools/go/ssa"
 	"os"
 	"path/filepath"
 	"runtime"
@@ -104,6 +105,32 @@ func main() {
 		}
 		if bad > 0 {
 			os.Exit(1)
+		}
+	case "loops":
+		for _, name := range fs.Args() {
+			for _, f := range eng.allFuncs {
+				if strings.HasSuffix(f.String(), name) && f.Pkg != nil && strings.HasPrefix(f.Pkg.Pkg.Path(), eng.modPath) {
+					vc := eng.newVC(f, nil)
+					fr := vc.newFrame(f, nil)
+					fmt.Println(f.String())
+					for h, li := range fr.loops {
+						var phis []string
+						for _, ins := range h.Instrs {
+							if p, ok := ins.(*ssa.Phi); ok {
+								phis = append(phis, p.Comment)
+							}
+						}
+						line := 0
+						for _, ins := range h.Instrs {
+							if ins.Pos() != 0 {
+								line = eng.fset.Position(ins.Pos()).Line
+								break
+							}
+						}
+						fmt.Printf("  loop %d: head block %d (%s) line %d phis %v blocks %d\n", li.ordinal, h.Index, h.Comment, line, phis, len(li.blocks))
+					}
+				}
+			}
 		}
 	case "check":
 		os.Exit(runCheck(eng, fs.Args(), *tier, *timeout, *par))
